@@ -1,0 +1,15 @@
+//go:build verif
+
+// Verification contracts for cmd/broker, property C19 (a broker appends only to partitions whose lease it
+// holds). Comment-only; read by /verif/govc.
+
+package main
+
+// handleProduce: every append goes to the log obtained for (topic, partition) in the same iteration, and is
+// reached only when the lease-error map returned by acquirePartitionLeases for this request has NO entry for
+// exactly that (topic, partition) (static dominance over the control-flow graph, see govc/guards.go).
+//@ func (h *handler) handleProduce
+//@   guarded [C19.append_only_without_lease_error] AppendBatch(getPartitionLog(_, _, $t, $p), _, _) by lookup(acquirePartitionLeases(_, _, _), {$t, $p}) is false
+//@   guarded [C19.log_opened_only_without_lease_error] getPartitionLog(_, _, $t, $p) by lookup(acquirePartitionLeases(_, _, _), {$t, $p}) is false
+//@   guarded [C19.flush_only_without_lease_error] Flush(getPartitionLog(_, _, $t, $p), _) by lookup(acquirePartitionLeases(_, _, _), {$t, $p}) is false
+//@   frame_only
